@@ -40,6 +40,8 @@ META = {
     ],
 }
 
+LIB_TEXTS = [":- use_module(library(lists)).", "zzsum(S) :- sum_list([1,2,3], S)."]
+LIB_QUERY = ["zzsum", ["S"]]
 BAD_CLAUSES = ["choice(a,b,c).", "length(a,b).", "true.", "body_1(a).", "call(a)."]
 
 
@@ -71,6 +73,7 @@ def gen_history(rng, nextra, nq, faults):
     ndb = 1
     haschild = set()
     remaining = list(range(nextra))
+    libbed = set()
     n = rng.randint(4, 14)
     for _ in range(n):
         r = rng.random()
@@ -85,6 +88,14 @@ def gen_history(rng, nextra, nq, faults):
             else:
                 ops.append(["query_interrupted", d, rng.randrange(nq), round(rng.random(), 3)])
             continue
+        if leaves and rng.random() < 0.12:
+            cand = [d for d in leaves if d not in libbed]
+            if cand:
+                d = rng.choice(cand)
+                libbed.add(d)
+                ops.append(["add_lib", d])
+                ops.append(["query", d, -1, rng.randrange(2)])
+                continue
         if (r < 0.2 or ndb == 1) and ndb < 5:
             p = rng.randrange(ndb)
             ops.append(["extend", p])
@@ -112,9 +123,9 @@ def add_text(db, text):
 
 
 def fresh_outcome(memo, texts, q):
-    key = (tuple(texts), gen.atom_str(q))
+    key = (tuple(texts), gen.atom_str(q[:2]))
     if key not in memo:
-        memo[key] = PL.run_pipeline("\n".join(texts) + "\nquery(%s).\n" % gen.atom_str(q), evaluator="fast")
+        memo[key] = PL.run_pipeline("\n".join(texts) + "\nquery(%s).\n" % gen.atom_str(q[:2]), evaluator="fast")
     return memo[key]
 
 
@@ -122,9 +133,10 @@ def query_db(engine, db, q, real=False):
     PL.CLOCK.reset(400000)
     try:
         try:
-            lf = engine.ground(db, C08.atom_term(q), label=LogicFormula.LABEL_QUERY)
-            o = C08.evaluate_target(lf, real=real)
-        except (PL.StepBudget, PL.CycleBreakBudget):
+            with PL.wall_guard(60):
+                lf = engine.ground(db, C08.atom_term(q), label=LogicFormula.LABEL_QUERY)
+                o = C08.evaluate_target(lf, real=real)
+        except (PL.StepBudget, PL.CycleBreakBudget, PL.WallBudget):
             o = {"kind": "budget", "cls": "StepBudget", "site": []}
         except Exception as e:
             o = PL.outcome_of_exception(e)
@@ -159,6 +171,15 @@ def run_history(texts, base_idx, Q, ops, stats=None, real_every=0):
             continue
         d = op[1] % len(dbs)
         if d in dead:
+            continue
+        if k == "add_lib":
+            if d == 0 or d in haschild:
+                continue
+            for t in LIB_TEXTS:
+                add_text(dbs[d], t)
+                model[d].append(t)
+            added_at = idx if added_at is None else added_at
+            trace.append("add_lib")
             continue
         if k in ("add", "add_bad", "add_interrupted"):
             if d == 0 or d in haschild:
@@ -230,7 +251,7 @@ def run_history(texts, base_idx, Q, ops, stats=None, real_every=0):
             trace.append("query_int:%s" % alarm.fired)
             continue
         if k == "query":
-            q = Q[op[2] % len(Q)]
+            q = LIB_QUERY if op[2] == -1 else Q[op[2] % len(Q)]
             e = eng[op[3] % 2]
             nq += 1
             real = bool(real_every) and nq % real_every == 0
@@ -253,7 +274,7 @@ def run_history(texts, base_idx, Q, ops, stats=None, real_every=0):
                     PL.kind_tag(exp), PL.kind_tag(got), DC.short_site(got if got["kind"] != "ok" else exp)))
                 raise C08.Violation("query_%s:%s" % (role, kind),
                                     "query %s on database %d (%s, %d clauses): from scratch %s, extension %s: %s" % (
-                                        gen.atom_str(q), d, role, len(model[d]), PL.kind_tag(exp), PL.kind_tag(got), why),
+                                        gen.atom_str(q[:2]), d, role, len(model[d]), PL.kind_tag(exp), PL.kind_tag(got), why),
                                     dict(C08.sides(exp, got), zero_prob_only=C08.zero_prob_only(exp, got), role=role))
     return (added_at is not None and queries_after >= 2), digest(trace)
 
@@ -345,7 +366,7 @@ def run_shard(shard):
                 res["traces"].append(trace)
                 if not res["samples"]:
                     res["samples"].append({"base": [texts[j] for j in base_idx], "extra": [texts[j] for j in extra],
-                                           "queries": [gen.atom_str(q) for q in Q], "ops": ops, "verdict": "ok"})
+                                           "queries": [gen.atom_str(q[:2]) for q in Q], "ops": ops, "verdict": "ok"})
                 continue
             m = {"signature": v.sig, "tags": tags, "op": v.sig.split(":", 1)[0]}
             m.update(v.extra)
